@@ -19,7 +19,15 @@ The translation is a direct transcription in state-passing style (combinators: c
     of_Z N (Z.of_nat i) (usize) / of_Z N z (i32), `v[i]` -> nth i v (zero N), literal 1.0 -> one N, 0.0 -> zero N,
     other float literals as in gen_src.py, `Peak { mz: a, intensity: b }` -> mkPeak a b.
 Everything else is REFUSED: the translator prints the offending construct and exits with status 3; it never guesses.
-See GRAMMAR below for the exact subset.  The output is deterministic and is rewritten only when it changes.
+See GRAMMAR below for the exact subset.
+
+  python3 tools/gen_poisson.py                          regenerate coq/gen/SrcGen.v and coq/gen/PoissonGen.v
+  python3 tools/gen_poisson.py --ties                   additionally compile coq/proofs/PoissonTie.v block by block
+                                                        (`(* BEGIN TIE f (needs: ..) *) .. (* END TIE f *)`) and print
+                                                        `tie <f>: OK | FAILED (..) | SKIPPED (..)` per function
+  python3 tools/gen_poisson.py --ties --field           the same in FIELD MODE (tools/tie_modes.py, coq/model/TieTac.v)
+  --only=a,b                                            (with --ties) only the named functions
+  The output is deterministic and is rewritten only when it changes.
 
 GRAMMAR (after cutting the file at `#[cfg(test)]`; comments are skipped)
   file    := item*
@@ -891,7 +899,28 @@ def main():
     if old != text:
         open(OUT, "w").write(text)
     print("gen_poisson: %d functions (%s)%s" % (len(order), ", ".join(order), "" if old == text else " [rewritten]"))
+    import tie_modes
+    ties, field, only = tie_modes.flags(sys.argv[1:])
+    if ties:
+        return check_ties(order, field, only)
     return 0
+
+
+TIE = os.path.join(os.path.dirname(OUT), "..", "proofs", "PoissonTie.v")
+WANTED = ["poisson_approximation_impl", "poisson_approximate_n_peaks_of_impl", "poisson_approximation",
+          "poisson_approximate_n_peaks_of"]
+
+
+def check_ties(order, field=False, only=None):
+    """compile coq/proofs/PoissonTie.v block by block (`(* BEGIN TIE f (needs: ..) *) .. (* END TIE f *)`), in strict
+    mode or (field=True) in field mode, see tools/tie_modes.py; prints `tie <f>: OK | FAILED (..) | SKIPPED (..)`"""
+    import tie_modes
+    coq = os.path.normpath(os.path.join(os.path.dirname(OUT), ".."))
+    if not tie_modes.compile_deps(coq, ["model/TieTac.v", "model/Imp.v", "gen/SrcGen.v", "gen/PoissonGen.v"]):
+        return 1
+    skipped = {n: "not among the functions the translator emitted" for n in WANTED if n not in order}
+    bad = tie_modes.check_blocks(coq, os.path.normpath(TIE), WANTED, skipped, field=field, only=only, stem="PoissonTie")
+    return 1 if bad else 0
 
 
 if __name__ == "__main__":
